@@ -73,10 +73,31 @@ def pruning_log_site_likelihoods(root, P_of, pi, tips, cat_p):
                     L[id(n)] = acc
             x = L[id(root)] + logpi[None, :]
             m = x.max(-1, keepdims=True)
+            m = np.where(np.isfinite(m), m, 0.0)
             site_k[k] = m[:, 0] + np.log(np.exp(x - m).sum(-1)) + logcat[k]
         m = site_k.max(0, keepdims=True)
         m = np.where(np.isfinite(m), m, 0.0)
         return m[0] + np.log(np.exp(site_k - m).sum(0))
+
+
+def pruning_site_likelihoods_linear(root, P_of, pi, tips, cat_p):
+    """Plain (probability-space) recursion; used only for mechanism diagnosis with matrices that may carry
+    round-off (tiny negative entries), where the log-space recursion does not apply."""
+    nodes = rt.postorder(root)
+    n_sites = tips.shape[1]
+    out = np.zeros(n_sites)
+    for k, pk in enumerate(cat_p):
+        L = {}
+        for n in nodes:
+            if n.is_leaf():
+                L[id(n)] = tips[n.leaf]  # [sites,S]
+            else:
+                acc = np.ones((n_sites, len(pi)))
+                for c in n.children:
+                    acc = acc * (L[id(c)] @ P_of(c, k).T)
+                L[id(n)] = acc
+        out += pk * (L[id(root)] @ np.asarray(pi, dtype=float))
+    return out
 
 
 def log_likelihood(site_loglik, weights):
